@@ -173,8 +173,11 @@ class Ctx:
             "known_findings_reproduced": sum(len(v) for v in matched.values()),
             "notes": self.notes,
         }
-        os.makedirs(os.path.join(ROOT, "evidence"), exist_ok=True)
-        path = os.path.join(ROOT, "evidence", f"{self.pid}.json")
+        # VERIF_EVIDENCE_DIR: only used by tools/trymutant.py so that runs against a mutated
+        # scratch copy do not overwrite the evidence of the real tree
+        evdir = os.environ.get("VERIF_EVIDENCE_DIR") or os.path.join(ROOT, "evidence")
+        os.makedirs(evdir, exist_ok=True)
+        path = os.path.join(evdir, f"{self.pid}.json")
         try:
             import jsonschema
             with open("/root/.vp/EVIDENCE.schema.json") as f:
